@@ -23,6 +23,8 @@ import (
 type foreignRow struct {
 	Shape        string `json:"shape"`
 	N            int    `json:"n"`
+	W            int    `json:"w"`     // digits: the width of a digit (1 = bits)
+	Bound        string `json:"bound"` // digits: none | exact | wide
 	Boolean      bool   `json:"boolean"`
 	BelowModulus bool   `json:"belowModulus"`
 	Family       string `json:"family"`
@@ -37,6 +39,36 @@ type foreignSelfReq struct {
 func init() {
 	drv.Register("foreignself", foreignSelf)
 	solver.RegisterHint(splitSelfHint)
+	solver.RegisterHint(radixSelfHint)
+}
+
+// radixSelfHint: the digits of in[0] in radix 2^in[1], least significant first - the harness's own chunk decomposition
+func radixSelfHint(_ *big.Int, in []*big.Int, out []*big.Int) error {
+	w := uint(in[1].Uint64())
+	rest := new(big.Int).Set(in[0])
+	mask := new(big.Int).Sub(new(big.Int).Lsh(big.NewInt(1), w), big.NewInt(1))
+	for i := range out {
+		out[i].And(rest, mask)
+		rest.Rsh(rest, w)
+	}
+	return nil
+}
+
+// assertBitsLE: the bit string (least significant first) read as an integer is at most bound - the classic bitwise comparison
+func assertBitsLE(api frontend.API, bits []frontend.Variable, bound *big.Int) {
+	var eq frontend.Variable = 1
+	for i := len(bits) - 1; i >= 0; i-- {
+		if bound.Bit(i) == 1 {
+			eq = api.Mul(eq, bits[i])
+		} else {
+			api.AssertIsEqual(api.Mul(eq, bits[i]), 0)
+		}
+	}
+}
+
+var radixFamilyName = map[string]string{
+	"nonbooleanTop": "radix/low-bit-flipped-top-solved", "topShift": "radix/two-top-digits-shifted", "allInDigit0": "radix/all-in-digit-0", "plusR": "radix/of-input-plus-r",
+	"borrow": "radix/borrow-from-top",
 }
 
 // splitSelfHint: (hi, lo) with x = hi*2^32 + lo - the harness's own two-limb split (independent of the repository's hint functions)
@@ -65,20 +97,69 @@ func foreignSelf(raw json.RawMessage, resp *drv.Response) error {
 		return err
 	}
 	rng := drv.Rng(int64(4100 + req.Shard))
-	narrow := 0
+	narrow, narrowRadix := 0, 0
 	for _, r := range rows {
-		if r.Shape == "digits" && (narrow == 0 || r.N < narrow) {
+		if r.Shape == "digits" && r.W <= 1 && (narrow == 0 || r.N < narrow) {
 			narrow = r.N
+		}
+		if r.Shape == "digits" && r.W > 1 && (narrowRadix == 0 || r.N < narrowRadix) {
+			narrowRadix = r.N
 		}
 	}
 	for _, r := range rows {
+		r := r
 		fam := familyName[r.Family]
+		if r.Shape == "digits" && r.W > 1 {
+			fam = radixFamilyName[r.Family]
+		}
 		if fam == "" {
 			return fmt.Errorf("unknown family %s", r.Family)
 		}
 		var xs []*big.Int
 		var gadget func(api frontend.API, x frontend.Variable)
-		if r.Shape == "digits" {
+		if r.Shape == "digits" && r.W > 1 {
+			// digits of 64 bits: three of them stay below r (narrow), four exceed it (full width)
+			const w = 64
+			n := 3
+			if r.N != narrowRadix {
+				n = 4
+			}
+			full := n*w >= 254
+			gadget = func(api frontend.API, x frontend.Variable) {
+				d, err := api.Compiler().NewHint(radixSelfHint, n, x, w)
+				if err != nil {
+					panic(err)
+				}
+				var sum frontend.Variable = 0
+				for i := range d {
+					sum = api.Add(sum, api.Mul(d[i], new(big.Int).Lsh(big.NewInt(1), uint(w*i))))
+				}
+				api.AssertIsEqual(sum, x)
+				switch r.Bound {
+				case "exact":
+					for i := range d {
+						api.ToBinary(d[i], w)
+					}
+				case "wide":
+					for i := range d {
+						api.ToBinary(d[i], w+8)
+					}
+				}
+				if r.BelowModulus && full {
+					var bits []frontend.Variable
+					for i := range d {
+						bits = append(bits, api.ToBinary(d[i], w)...)
+					}
+					assertBitsLE(api, bits, new(big.Int).Sub(bigR, one))
+				}
+			}
+			lim := pow2(n * w)
+			if full {
+				lim = bigR
+			}
+			xs = []*big.Int{new(big.Int).Add(two64, big.NewInt(6)), new(big.Int).Add(pow2(70), big.NewInt(3)), new(big.Int).Sub(lim, one),
+				drv.RandBelow(rng, lim), drv.RandBelow(rng, lim), drv.RandBelow(rng, lim), new(big.Int).Add(pow2((n-1)*w), big.NewInt(5))}
+		} else if r.Shape == "digits" {
 			n := 8 // narrow: 2^n below the modulus
 			if r.N != narrow {
 				n = 254 // full width
@@ -147,11 +228,11 @@ func foreignSelf(raw json.RawMessage, resp *drv.Response) error {
 				}
 			}
 		}
-		key := fmt.Sprintf("%s/%d/%v/%v/%s", r.Shape, r.N, r.Boolean, r.BelowModulus, r.Family)
+		key := fmt.Sprintf("%s/w%d/%d/%s%v/%v/%s", r.Shape, r.W, r.N, r.Bound, r.Boolean, r.BelowModulus, r.Family)
 		resp.Count(key, false)
 		if wins != r.Wins {
 			resp.Violate("foreignself/table-mismatch "+key,
-				fmt.Sprintf("ForeignMoves.tla: family %s against (%s, boolean/boundLo=%v, belowModulus/boundHi=%v) wins=%v; on the real gadget wins=%v (move applied to %d inputs)", r.Family, r.Shape, r.Boolean, r.BelowModulus, r.Wins, wins, applied), r)
+				fmt.Sprintf("ForeignMoves.tla: family %s against (%s w=%d n=%d, bound=%s boolean/boundLo=%v, belowModulus/boundHi=%v) wins=%v; on the real gadget wins=%v (move applied to %d inputs)", r.Family, r.Shape, r.W, r.N, r.Bound, r.Boolean, r.BelowModulus, r.Wins, wins, applied), r)
 		}
 		if len(resp.Samples) < 5 {
 			resp.Sample(map[string]any{"row": key, "model_wins": r.Wins, "real_wins": wins, "inputs_where_the_move_applied": applied})
